@@ -185,13 +185,14 @@ func (r *c05run) opsPlain() []J {
 var c05stats = map[string]int{}
 var c05oracleCount = 0
 
-func (r *c05run) fail(what string, detail J) {
+func (r *c05run) fail(what string, detailOf func() J) {
 	c05oracleCount++
+	c05stats["oracle: "+what]++
 	if c05oracleCount > 40 {
 		return
 	}
 	line := J{"kind": "oracle", "what": what, "class": r.class, "ops": r.opsPlain(), "at_op": len(r.ops) - 1}
-	for k, v := range detail {
+	for k, v := range detailOf() {
 		line[k] = v
 	}
 	emit(line)
@@ -267,7 +268,7 @@ func (r *c05run) record(o c05op, panicked bool, results []uint, before, mid, aft
 			r.idxOf[s] = k // whatever entered the archive during operation k is exported as candidate k
 			ob.Added = append(ob.Added, k)
 			if e := c05entryOf(s); !c05sameVec(e.vec, o.cand.vec) || e.acts != acts {
-				r.fail("an entry that is not the offered candidate entered the archive", J{"entered": J{"vec": e.vec, "acts": e.acts}})
+				r.fail("an entry that is not the offered candidate entered the archive", func() J { return J{"entered": J{"vec": e.vec, "acts": e.acts}} })
 			}
 		}
 	}
@@ -330,10 +331,10 @@ func (r *c05run) oracle(o c05op, before, mid, after []*marchive.CompressedModelS
 				}
 			}
 			if !found {
-				r.fail("candidate refused as dominated although no member dominates it", detail())
+				r.fail("candidate refused as dominated although no member dominates it", detail)
 			}
 			if len(removedFrom(pre, post)) > 0 || len(post) != len(pre) {
-				r.fail("a refusal changed the archive", detail())
+				r.fail("a refusal changed the archive", detail)
 			}
 		case marchive.RejectedWithDuplicateEntryDetected:
 			found := false
@@ -343,47 +344,47 @@ func (r *c05run) oracle(o c05op, before, mid, after []*marchive.CompressedModelS
 				}
 			}
 			if !found {
-				r.fail("candidate refused as duplicate although no member has its action set", detail())
+				r.fail("candidate refused as duplicate although no member has its action set", detail)
 			}
 			if len(removedFrom(pre, post)) > 0 || len(post) != len(pre) {
-				r.fail("a refusal changed the archive", detail())
+				r.fail("a refusal changed the archive", detail)
 			}
 		case marchive.StoredWithNoDominanceDetected, marchive.StoredReplacingDominatedEntries:
 			if !present(pre, post) {
-				r.fail("stored candidate is not present afterwards", detail())
+				r.fail("stored candidate is not present afterwards", detail)
 			}
 			for _, m := range removedFrom(pre, post) {
 				if !c05dominates(c.vec, c05entryOf(m).vec) {
-					r.fail("a member was evicted by a normal store although the new candidate does not dominate it", detail())
+					r.fail("a member was evicted by a normal store although the new candidate does not dominate it", detail)
 				}
 			}
 			if len(post) != len(pre)-len(removedFrom(pre, post))+1 {
-				r.fail("a normal store added something other than the candidate", detail())
+				r.fail("a normal store added something other than the candidate", detail)
 			}
 		default:
-			r.fail(fmt.Sprintf("unexpected storage result %d from AttemptToArchiveState", res), detail())
+			r.fail(fmt.Sprintf("unexpected storage result %d from AttemptToArchiveState", res), detail)
 		}
 	}
 	checkForce := func(res uint, pre, post []*marchive.CompressedModelState) {
 		if marchive.StorageResult(res) != marchive.StoredForcingDominatingStateRemoval {
-			r.fail(fmt.Sprintf("unexpected storage result %d from ForceModelStateIntoArchive", res), detail())
+			r.fail(fmt.Sprintf("unexpected storage result %d from ForceModelStateIntoArchive", res), detail)
 		}
 		if !present(pre, post) {
-			r.fail("forced candidate is not present afterwards", detail())
+			r.fail("forced candidate is not present afterwards", detail)
 		}
 		for _, m := range removedFrom(pre, post) {
 			if !c05dominates(c05entryOf(m).vec, c.vec) {
-				r.fail("a member was evicted by a forced store although it does not dominate the candidate", detail())
+				r.fail("a member was evicted by a forced store although it does not dominate the candidate", detail)
 			}
 		}
 		if len(post) != len(pre)-len(removedFrom(pre, post))+1 {
-			r.fail("a forced store added something other than the candidate", detail())
+			r.fail("a forced store added something other than the candidate", detail)
 		}
 	}
 	switch o.kind {
 	case c05Offer:
 		if len(results) != 1 {
-			r.fail("wrong number of results", detail())
+			r.fail("wrong number of results", detail)
 			return
 		}
 		checkAttempt(results[0], before, after)
@@ -404,20 +405,23 @@ func (r *c05run) oracle(o c05op, before, mid, after []*marchive.CompressedModelS
 		for i, s := range after {
 			es[i] = c05entryOf(s)
 		}
+		domFound, dupFound := false, false
 		for i := range es {
 			for j := range es {
-				if i != j && c05dominates(es[i].vec, es[j].vec) {
-					r.fail("archive contains a member dominated by another member", detail())
+				if i != j && !domFound && c05dominates(es[i].vec, es[j].vec) {
+					domFound = true
+					r.fail("archive contains a member dominated by another member", detail)
 				}
-				if i < j && es[i].acts == es[j].acts {
-					r.fail("archive contains two members with the same action set", detail())
+				if i < j && !dupFound && es[i].acts == es[j].acts {
+					dupFound = true
+					r.fail("archive contains two members with the same action set", detail)
 				}
 			}
 		}
 		// without forced stores, on consistent streams: archive = Pareto front of all offers so far
 		if !r.anyForce && r.consistent {
 			if msg := c05frontDiff(es, r.ops); msg != "" {
-				r.fail("archive differs from the Pareto-optimal subset of the candidates offered so far: "+msg, detail())
+				r.fail("archive differs from the Pareto-optimal subset of the candidates offered so far: "+msg, detail)
 			}
 		}
 	}
